@@ -12,24 +12,25 @@ from workflows import Context
 
 ID = "C31"
 LEVEL = "exploration"
-QUICK_RUNS = 2000
+QUICK_RUNS = 4000
 THOROUGH_SECONDS = 600
 RULE_TEXT = ("Arm A: generated workflows with a workflow timeout on the same grid as step durations (so the timeout lands "
              "before, exactly at, and after step completions) and cancel_run at tape-chosen instants; oracle on outcome, "
              "terminal event, active_steps vs. the engine's own open RUNNING slots, and step entries after the cancel event. "
              "Arm B: deterministic-result programs (path ids, idempotent writes, no failures) cancelled with cancel_run at a "
              "tape-chosen instant, then ctx.to_dict() -> JSON -> Context.from_dict -> run, compared with the uninterrupted "
-             "reference. Non-trivial: the timeout/cancel hit while >=1 step was active; distinct = (arm, outcome, trace shape).")
+             "reference. Arm C: a run with a workflow timeout is cancelled, serialized, resumed and then hangs; the resumed run must be ended "
+             "by its timeout. Non-trivial: the timeout/cancel hit while >=1 step was active; distinct = (arm, outcome, trace shape).")
 COMPONENTS = {"real": ["workflows.* engine incl. WorkflowHandler.cancel_run, TickTimeout/TickCancelRun reducer arms, to_dict after cancel"],
               "stub": ["llama_index_instrumentation"], "sim": ["loop, clock"]}
 ASSUMPTIONS = ["a run that finishes at exactly the timeout instant may end either way (tie exempt)",
                "arm B programs have no failing steps, so the known C12 defects (lost delayed retry, lost in-flight attempt count) cannot interfere"]
-EXPECTED_PROBES = ["timeout-with-active-steps", "cancel-with-active-steps", "finished-before-timeout", "resumed-after-cancel"]
+EXPECTED_PROBES = ["resumed-with-timeout-configured", "stop-returned-then-loop-stalled-past-deadline", "timeout-with-active-steps", "cancel-with-active-steps", "finished-before-timeout", "resumed-after-cancel"]
 LEVEL_TEXT = "Seeded exploration of timeout/cancel instants against step completions, plus a differential resume-after-cancel arm."
 LEVEL_NOTE = "Trusted: simulator loop/clock, recording adapter."
 
 CFG_A = {"driver": "result", "p_retry": 20, "p_fail": 10, "p_cancel": 35, "timeouts": [None, 1, 2, 3, 5, 8], "p_stream": 30,
-         "p_ret_none": 10, "fan_max": 3}
+         "p_ret_none": 10, "fan_max": 3, "p_stall": 20, "stall_grid": [1, 2, 3]}
 CFG_B = {"driver": "finish", "grid": [0, 1, 1, 2, 3]}
 TERMINAL = {"StopEvent", "Stop1", "WorkflowFailedEvent", "WorkflowCancelledEvent", "WorkflowTimedOutEvent"}
 
@@ -83,6 +84,14 @@ def check_a(world, spec, outcome) -> None:
             world.violate("C31.timeout-outcome", f"WorkflowTimedOutEvent published but outcome is {err or 'result'}", seq, how="event-without-error")
         if ev == "WorkflowCancelledEvent" and err != "WorkflowCancelledByUser":
             world.violate("C31.cancel-outcome", f"WorkflowCancelledEvent published but outcome is {err or 'result'}", seq, how="event-without-error")
+    if err == "WorkflowTimeoutError" and T is not None:
+        # the step that ends the run had already returned its StopEvent (strictly) before the deadline: the run finished first,
+        # however long the loop was blocked afterwards
+        early = [(seq, t) for seq, t, kind, f in recs if kind == "exit" and f.get("exit") == "returned-stop" and t < T - 1e-9]
+        if early:
+            stalled = any(k == "stall" for _, _, k, _ in recs)
+            world.violate("C31.false-timeout", f"a step returned the StopEvent at t={early[0][1]} < timeout {T}, yet the run failed with WorkflowTimeoutError",
+                          early[0][0], how="stop-returned-before-deadline", loop_stalled=stalled)
     if err == "WorkflowTimeoutError" and (first_term is None or first_term[2] != "WorkflowTimedOutEvent"):
         world.violate("C31.timeout-outcome", f"WorkflowTimeoutError without a preceding WorkflowTimedOutEvent (first terminal: {first_term})", how="error-without-event")
     if err == "WorkflowCancelledByUser" and (first_term is None or first_term[2] != "WorkflowCancelledEvent"):
@@ -92,6 +101,10 @@ def check_a(world, spec, outcome) -> None:
                       how="not-within-step-bound")
     if T is not None and outcome is not None and outcome.get("hung"):
         world.violate("C31.timeout-outcome", f"run with timeout {T} is still unfinished at quiescence (t={world.clock.t})", how="never-timed-out")
+    if T is not None and res:
+        ex = [t for _, t, kind, f in recs if kind == "exit" and f.get("exit") == "returned-stop" and t < T - 1e-9]
+        if ex and first_term is not None and first_term[1] > T + 1e-9:
+            world.probe("stop-returned-then-loop-stalled-past-deadline")
     for seq, t, kind, f in recs:
         if kind == "cancel-returned" and not f["done"]:
             world.violate("C31.cancel-outcome", "cancel_run() returned but the run is still live", seq, how="not-ended")
@@ -143,7 +156,73 @@ async def scenario_b(world, spec):
 _LAST: dict = {}
 
 
+def _arm_c(tape):
+    """Arm C: a run with a workflow timeout is cancelled, serialized and resumed; the resumed run hangs (a wait nobody answers)
+    and must still be ended by its timeout."""
+    T_ = tape.choice([2, 4, 8], "c.timeout")
+
+    def gen_c(t, cfg):
+        steps = [
+            {"name": "s0", "accepts": ["Start0"], "workers": 1, "sync": False, "retry": None, "role": "step",
+             "scripts": {"Start0": [("work",), ("pret", "E0")]}, "returns": ["E0"], "stop": False},
+            {"name": "w0", "accepts": ["E0"], "workers": 1, "sync": False, "retry": None, "role": "step",
+             "scripts": {"E0": [("work",), ("wait", "Resp0", False, None, "w", False), ("ret", "stop")]}, "returns": [], "stop": True},
+        ]
+        return {"steps": steps, "types": ["E0"], "timeout": T_, "driver": "result", "disable_validation": False}
+
+    async def scenario_c(world, spec):
+        wf = build_workflow(spec, world)
+        start = EV.Start0(uid=world.uid())
+        handler = wf.run(start_event=start, run_id="run1")
+        consumer1 = asyncio.ensure_future(world.consume(handler, "c1"))
+        d = world.tape.choice([0, 1, 1, 2, 3], "c.cancel.at")
+        if d:
+            await asyncio.sleep(d)
+        else:
+            await asyncio.sleep(0)
+        outcome = {"handler": handler, "wf": wf, "resumed": False}
+        if handler.is_done():
+            return outcome
+        world.fault("cancel-run")
+        world.trace.log("cancel-request", open_bodies=sorted(r["step"] for r in world.open_bodies.values()))
+        await handler.cancel_run()
+        js = json.loads(json.dumps(handler.ctx.to_dict()))
+        world.dead_runs["run1"] = world.trace.log("snapshot", after="cancel")
+        wf2 = build_workflow(spec, world)
+        handler2 = wf2.run(ctx=Context.from_dict(wf2, js), run_id="run2")
+        t_resume = world.clock.t
+        world.probe("resumed-with-timeout-configured")
+        consumer2 = asyncio.ensure_future(world.consume(handler2, "c2"))
+        q = world.loop.quiesce()
+        await asyncio.wait([q, handler2._result_task], return_when=asyncio.FIRST_COMPLETED)
+        outcome.update(resumed=True, t_resume=t_resume, done=handler2.is_done(), t_end=world.clock.t)
+        if handler2.is_done():
+            try:
+                outcome["result"] = handler2._result_task.result()
+            except BaseException as e:  # noqa: BLE001
+                outcome["error"] = e
+        for c in (consumer1, consumer2):
+            c.cancel()
+        return outcome
+
+    def check_c(world, spec, outcome):
+        world._nt = bool(outcome and outcome.get("resumed"))
+        if not outcome or not outcome.get("resumed"):
+            return
+        pubs = [f["ev"] for _, _, k, f in world.trace.recs if k == "publish" and f.get("run") == "run2"]
+        if not outcome["done"]:
+            world.violate("C31.timeout-outcome", f"run resumed from a cancelled context (workflow timeout {T_}s) is still unfinished at quiescence, "
+                          f"{world.clock.t - outcome['t_resume']}s after the resume: no WorkflowTimedOutEvent, no WorkflowTimeoutError", how="resumed-run-never-timed-out")
+        elif type(outcome.get("error")).__name__ != "WorkflowTimeoutError" or "WorkflowTimedOutEvent" not in pubs:
+            world.violate("C31.timeout-outcome", f"resumed hanging run ended with {outcome.get('error')!r} / {outcome.get('result')!r}; published {pubs[-3:]}",
+                          how="resumed-run-wrong-end")
+    return simulate(tape, {"driver": "result", "grid": [0, 1, 1, 2], "quiesce_gap": 100.0}, check_c, gen=gen_c, scenario=scenario_c, nontrivial=lambda w, s, o: w._nt)
+
+
 def run(tape):
+    arm = tape.draw(7, "arm7")
+    if arm == 0:
+        return _arm_c(tape)
     if tape.draw(3, "arm") != 0:
         return simulate(tape, CFG_A, check_a, nontrivial=lambda w, s, o: w._nt, check_on_cap=True)
     from props import c12
@@ -175,6 +254,7 @@ def run(tape):
     res1 = simulate(tape, CFG_B, chk, gen=gen_b, scenario=scenario_b, nontrivial=lambda w, s, o: w._nt)
     s1, resumed = _LAST.get("s"), _LAST.get("resumed")
     t2 = Tape(replay=list(tape.values))
+    t2.draw(7, "arm7")
     t2.draw(3, "arm")
     res2 = simulate(t2, CFG_B, lambda w, s, o: _LAST.__setitem__("ref", c12._summary(w, o)), gen=gen_b, scenario=drive_standard)
     ref = _LAST.get("ref")
